@@ -143,8 +143,18 @@ class ExprMixin:
             return
         if cls is None and cx.spec is not None:
             owners = self.reg.attr_owners(attr)
+            owners = [c for c in owners if not self.reg.attrs[(c, attr)].startswith("rep:")] or owners
+            if len(owners) == 1 or (owners and self.reg.attrs[(owners[0], attr)].startswith("rep:")):
+                yield st, self.read_attr(st, o, self.reg.attrs[(owners[0], attr)], owners[0] + "." + attr, guard=owners[:1])
+                return
             if owners:
-                yield st, self.read_attr(st, o, self.reg.attrs[(owners[0], attr)], owners[0] + "." + attr, guard=owners)
+                # several classes declare the attribute: select the array by the value's class
+                owners = sorted(owners, key=lambda c: -len(self.src.mro(c)))
+                val = None
+                for c in reversed(owners):
+                    v = self.read_attr(st, o, self.reg.attrs[(c, attr)], c + "." + attr, guard=[c]).e
+                    val = v if val is None else z3.If(self.o.is_type(o.e, "ref:" + c), v, val)
+                yield st, SV(val, None)
                 return
         if cls is None:
             raise Unsupported("attribute %s on value of unknown class (%s)" % (attr, o.ty))
@@ -169,6 +179,8 @@ class ExprMixin:
             c = o.ty[4:]
             if reg.attr_decl(src, c, attr) or (c in src.classes and (src.find_method(c, attr) or src.find_const(c, attr))):
                 return c
+        if self.o.spec_depth > 0:
+            return None
         # narrowing through the path condition
         owners = list(reg.attr_owners(attr))
         for c, ci in src.classes.items():
